@@ -50,6 +50,7 @@ type State struct {
 	lastIter *iterInfo
 	curPoint point
 	lockEpoch *int
+	conds    []string // branch conditions taken so far (for state merging)
 	wfGuard  string
 	wfSink   *[]string // when set, type-invariant facts are collected (inside quantifier bodies) instead of asserted
 }
@@ -68,6 +69,7 @@ type iterInfo struct {
 func (st *State) clone() *State {
 	c := &State{fx: st.fx, epoch: st.epoch, allocTop: st.allocTop, top0: st.top0, fuel: st.fuel, lastIter: st.lastIter, curPoint: st.curPoint}
 	c.kpre = append([]prefixEpoch{}, st.kpre...)
+	c.conds = append([]string{}, st.conds...)
 	c.kep = make(map[string]int, len(st.kep))
 	for k, v := range st.kep {
 		c.kep[k] = v
@@ -209,6 +211,7 @@ func (st *State) heapSet(key, sort, term string) {
 		fmt.Fprintln(os.Stderr, "heapSet", key)
 	}
 	st.heap[key] = term
+	st.fx.keySorts[key] = sort
 }
 
 // havocAll forgets every heap array and ghost variable (call to code without a frame).
